@@ -146,7 +146,9 @@ type Machine struct {
 	flagFuncs     []flagFunc
 	onces         map[string]bool
 	sched         *scheduler
-	trackShared   bool                       // C19: log accesses to heap objects reachable from package-level state
+	pools         map[string]*poolState
+	pooled        map[*object]string            // objects currently inside a sync.Pool -> where they were put
+	trackShared   bool                          // C19: log accesses to heap objects reachable from package-level state
 	sharedAcc     map[interface{}]*globalAccess // keyed by *object / *mapObj
 	sharedName    map[interface{}]string
 	published     map[interface{}]bool // path-local objects stored into shared memory during this path
@@ -874,6 +876,8 @@ func (m *Machine) resetPathState() {
 	m.onces = nil
 	m.syncDepth = 0
 	m.sched = nil
+	m.pools = nil
+	m.pooled = nil
 	m.trackShared = false
 	m.sharedAcc = nil
 	m.sharedName = nil
